@@ -127,7 +127,7 @@ Proof.
   - left. auto.
 Qed.
 
-(* a superadditive game passes at every non-negative tolerance; the tolerance only ever admits more games *)
+(* a superadditive game passes at every non-negative tolerance; the tolerance only ever lets more games pass *)
 Corollary pd_is_superadditive_complete n v rtol atol : pd_SA n v -> pd_is_superadditive n v rtol atol = Some true.
 Proof. intros H. apply pd_is_superadditive_iff. intros A B HA HB Hd. left. auto. Qed.
 
